@@ -10,6 +10,11 @@ CHECKS = {
 CHECKS["C16"] = dict(cat="model_checking", tech="explicit-state BFS over put/get histories of the real EventQueue + stateless model checking (exhaustive deviation-bounded schedules) with a brute-force linearizability oracle + exhaustive pair enumeration for the equality law",
    text="BFS over all put/get_nowait histories (3 items, 2 of them equal) on the real queue against a permissive sequential reference; all interleavings of up to 3 producers and a consumer up to a deviation bound, each checked for linearizability; all pairs of event objects for ==/hash. Right level: the property quantifies over sequences and interleavings.",
    note="trusted: wdmc.vsched primitives and the re-executed stdlib queue.py; coalescing treated as optional (the statement permits, not demands, the drop)", ref="3 C16")
+_obs = "trusted: wdmc.vsched primitives; scripted emitter class instead of a native one (the registry/dispatch code under test is the real api.py); delay-bounded schedules (every departure from the default schedule costs 1), bound as reported in the evidence"
+CHECKS["C04"] = dict(cat="model_checking", tech="stateless model checking: exhaustive deviation-bounded schedule enumeration of real BaseObserver client programs", text="A family of small client programs (1-3 watches, 1-3 handlers, scripted emitters, application threads and re-entrant callbacks issuing registry calls) run on the real BaseObserver/EventQueue under the deterministic scheduler; every interleaving within the deviation bound is checked for exactly-once, per-watch order and routing from the logical-clock log.", note=_obs, ref="3 C04")
+CHECKS["C05"] = dict(cat="model_checking", tech="stateless model checking: exhaustive deviation-bounded schedule enumeration; removal placed at every point of the event stream", text="Programs with a removing call (external thread and re-entrant) on the real BaseObserver; every interleaving within the bound is checked: no callback of a removed handler starts after the removing call returned, none is in progress at the return (unless re-entrant), the unscheduled emitter thread is dead.", note=_obs, ref="3 C05")
+CHECKS["C06"] = dict(cat="model_checking", tech="stateless model checking: exhaustive deviation-bounded schedule enumeration with deadlock detection (no enabled thread, no timer)", text="All programs of <=2 application threads x <=2 (quick) / 3 (thorough) calls from {start, schedule, unschedule, unschedule_all, stop, join} plus re-entrant calls, scripted emitters; scheduler verdicts deadlock/horizon and the set of live library threads after stop()+join().", note=_obs + "; part (a) of DESIGN 3 C06 only so far (scripted emitters)", ref="3 C06")
+CHECKS["C13"] = dict(cat="model_checking", tech="explicit-state BFS to closure over API call sequences on the real BaseObserver with fault-injecting emitter class, compared step by step with a reference map", text="BFS over all call sequences of the alphabet (incl. schedule failing at emitter construction/start) until no new canonical state appears; after every call emitters, liveness and marker routing are compared with a dict-of-sets reference.", note="trusted: reference map model; alphabet restricted to well-formed calls; closure reported per run", ref="3 C13")
 NA = {}
 def main():
     checks = []
